@@ -28,6 +28,7 @@ SIG_NARROW = "get_hcables.narrow-selection.from-hpin.walks-past-the-adjacent-wir
 SIG_UNIQUE = "HRef.is_unique.true-for-port-or-cable-reference-into-shared-definition"
 SIG_NOREF = "get_hinstances.instance-without-reference.no-occurrences-returned"
 SIG_RMDEF = "get_all_hrefs_of_instances.definition-removed-from-library.occurrences-not-returned"
+SIG_NOWIRE = "get_hcables.cable-without-wires.occurrences-not-returned"
 SIG_DANGLING = "hier-tracing.pin-of-removed-child-or-port-left-on-wire.returns-invalid-reference"
 
 
@@ -1068,6 +1069,9 @@ def check_c11(res, sess, recipe, rng, tier_scale, edits=None, tag="gen"):
                 if isinstance(impl, list) and impl != model and any_out and rj["k"] not in ("netlist", "href") \
                         and set(map(tuple, impl)) <= set(map(tuple, model)):
                     sig = SIG_RMDEF    # open finding: the netlist is looked for through the first instance only
+                if isinstance(impl, list) and impl != model and f == "hcable" and rj["k"] == "cable" \
+                        and len(obj.wires) == 0 and set(map(tuple, impl)) <= set(map(tuple, model)):
+                    sig = SIG_NOWIRE   # open finding: a cable root is expanded through its wires only
                 if impl != model:
                     res.corr_mismatch("Spydr.Hier.%s vs spydrnet.get_%ss (element root after edits)" % (f, f),
                                       inp, impl, model, signature=sig)
@@ -1114,8 +1118,12 @@ def check_c11(res, sess, recipe, rng, tier_scale, edits=None, tag="gen"):
                 if k not in elab2.all_valid and impl != []:
                     res.spec_failure("get_%ss.after-edit.dead-reference-as-root-answers" % f, inp, repr(impl)[:200])
                 if impl != sorted(a["v"]):
+                    it = h.item
+                    nowire = (f == "hcable" and impl == [] and isinstance(it, sdn.Cable) and len(it.wires) == 0)
                     res.corr_mismatch("Spydr.Hier.%s vs spydrnet.get_%ss (held reference as root after edits)" % (f, f),
-                                      inp, impl, sorted(a["v"]))
+                                      inp, impl, sorted(a["v"]), signature=SIG_NOWIRE if nowire else None)
+                    if nowire and k in elab2.all_valid:
+                        res.spec_failure(SIG_NOWIRE, inp, "get_hcables(hcable) of a cable without wires returns nothing")
 
 
 # --------------------------------------------------------------------------------------------
